@@ -462,3 +462,36 @@ def loc_compile(i, p):
     except Exception as exc:
         return 'raises-' + type(exc).__name__
     return 'accepted-invalid'
+
+
+# ---------------------------------------------------------------------------
+# C05.matrix: operator x operand-type matrix including untyped, collection and NULL operands
+
+MATRIX_OPERANDS = [(n, lambda n=n: col(n), t) for n, t in COLS] + [('NULL', lambda: const(None), type(None))]
+MATRIX_OPS = [ast.Add, ast.Sub, ast.Mul, ast.Div, ast.Mod, ast.Equal, ast.NotEqual, ast.Less, ast.LessEq, ast.Greater,
+              ast.GreaterEq, ast.Match, ast.NotMatch]
+
+
+def make_matrix(astcls):
+    @cond(f'C05.matrix.{astcls.__name__}', quick=120,
+          bounds=f'{astcls.__name__}(x, y) for every ordered pair of operand kinds out of int, str, dict, set, Decimal, bool, '
+                 'object (untyped) columns and the NULL constant: compiled iff an overload exists (after the implicit cast '
+                 'of an untyped operand); a rejection is a CompilationError, never another exception',
+          symbolic='(none)', enumerated='operand kinds (two selectors)', params={'i': int, 'j': int}, group='C05.matrix')
+    def matrix(i, j):
+        (ln, lmake, lt), (rn, rmake, rt) = pick(MATRIX_OPERANDS, i), pick(MATRIX_OPERANDS, j)
+        node = astcls(lmake(), rmake())
+        cand, _, _ = refsem.binary_overload(astcls, lt, rt)
+        want = 'accept' if cand is not None else 'reject'
+        conn = _conn()
+        got = verdict(lambda: native(conn.compile, sel([target(node, 'r')], 't')))
+        if got.startswith('raises-'):
+            return f'{got}: {ln} {astcls.__name__} {rn}'
+        if got != want:
+            return f'{"accepted-invalid" if got == "accept" else "rejected-valid"}: {ln} {astcls.__name__} {rn}'
+        cover(want)
+        return 'ok'
+
+
+for _cls in MATRIX_OPS:
+    make_matrix(_cls)
